@@ -44,7 +44,7 @@ def bounds(tier):
         "class_modes": list(CLASS_MODES),
         "cost_matrices": COSTS,
         "weights": "None for every labeling; all of {0,1,2}^4 for 3 labelings of line4" if q else "None; all of {0,1,2}^4 for 6 labelings",
-        "fit_modes": ["fit", "partial_fit x2 (classifiers with partial_fit)"],
+        "fit_modes": ["fit", "partial_fit x2 (classifiers with partial_fit)", "refit: fit on a fully labeled set first, then on the case (labelings with <= 1 class present)"],
     }
 
 
@@ -101,7 +101,12 @@ def run_case(acc, subj, pname, lab, cmode, costname, w, fitmode):
     classes = CLASS_MODES[cmode]
     cost = COSTS[costname]
     mp = LABEL_MAP.get(cmode, {})
-    eff = lab if subj.window is None else lab[-subj.window:]
+    if subj.window is None:
+        eff = lab
+    elif subj.only_labeled:
+        eff = tuple([v for v in lab if v is not None][-subj.window:])  # unlabeled samples never enter the window (fit and partial fits alike)
+    else:
+        eff = lab[-subj.window:]
     present = sorted(set(int(mp.get(v, v)) for v in eff if v is not None))
     key = (subj.name, pname, lab, cmode, costname, w, fitmode)
     trivial = classes is None and not present
@@ -122,7 +127,12 @@ def run_case(acc, subj, pname, lab, cmode, costname, w, fitmode):
         with warnings.catch_warnings():
             warnings.simplefilter("ignore")
             clf = subj.make(classes=classes, cost_matrix=cost, random_state=0)
-            if fitmode == "fit":
+            if fitmode == "refit":
+                # the same object was trained on a fully labeled set before (all three classes): nothing of it may survive the second fit
+                y_full = _y(tuple([0, 1, 2, 0, 1, 2][: (6 if subj.multi else 4)]), subj.multi, cmode)
+                clf.fit(X, y_full)
+                clf.fit(X, y)
+            elif fitmode == "fit":
                 clf.fit(X, y) if sw is None else clf.fit(X, y, sample_weight=sw)
             else:
                 h = len(X) // 2
@@ -185,7 +195,9 @@ def run_case(acc, subj, pname, lab, cmode, costname, w, fitmode):
         c = present[0]
         j = [float(x) for x in classes_].index(float(c))
         rows = [i for i in range(len(X)) if (np.any(~np.isnan(y[i])) if subj.multi else not np.isnan(y[i]))]
-        if subj.window is not None:
+        if subj.window is not None and subj.only_labeled:
+            rows = rows[-subj.window:]
+        elif subj.window is not None:
             rows = [i for i in rows if i >= len(X) - subj.window]
         bad = [i for i in rows if P[i, j] < P[i].max() - 1e-12]
         if bad:
@@ -265,6 +277,8 @@ def _cases(subj, pname, tier):
                 costs = ["none", "asym"]
             for costname in costs:
                 yield (lab, cmode, costname, None, "fit")
+        if len(set(v for v in lab if v is not None)) <= 1:
+            yield (lab, "sorted", "none", None, "refit")
         if subj.partial:
             yield (lab, "sorted", "none", None, "partial_fit")
             yield (lab, "sorted", "asym", None, "partial_fit")
